@@ -1011,6 +1011,31 @@ func (c *Ctx) ownReflectedMap(m ssa.Value) bool {
 func (c *Ctx) isChildUnserializeResult(k ssa.Value) bool {
 	x := valueOfArg(k)
 	if x == nil {
+		// handed out by a worker of the package (the conversion of one entry, moved into a function of its own): every
+		// way out of it that hands a value out in that position hands out such a result
+		if hex, isEx := k.(*ssa.Extract); isEx {
+			if hc, isCall := hex.Tuple.(*ssa.Call); isCall {
+				if h := core.StaticBody(&hc.Call); h != nil && len(core.PlainSites(h)) > 0 {
+					n := 0
+					for _, site := range core.RetSites(h, hex.Index) {
+						v := core.Unwrap(site.Val)
+						if ld, isLoad := v.(*ssa.UnOp); isLoad {
+							if _, isAlloc := ld.X.(*ssa.Alloc); isAlloc {
+								continue // the zero Value of a failing way out (`none := reflect.Value{}`)
+							}
+						}
+						if _, isZero := v.(*ssa.Const); isZero {
+							continue
+						}
+						if v == k || !c.isChildUnserializeResult(v) {
+							return false
+						}
+						n++
+					}
+					return n > 0
+				}
+			}
+		}
 		return false
 	}
 	ex, ok := x.(*ssa.Extract)
